@@ -1,4 +1,5 @@
 import JoblibModel.HashStream
+import JoblibModel.HashMemo
 import JoblibModel.IOUtil
 /-! Driver for C08.
 
@@ -10,6 +11,8 @@ notation: `N` | `T` | `F` | `I<decimal>` | `D<16 hex digits>` (binary64 pattern)
 (children in iteration order).
 `encod <pinned|regressed|repaired> <n> <table…> M<n> k v …` is the same for a top-level `collections.OrderedDict` with the
 given items (`encodeOD`, the three versions of `Hasher._batch_setitems` on a one-shot iterator).
+`memo <obj> …` (decimal object numbers, pairwise different, in the order of the `memoize` calls of one dump): reply
+`ok <idx> …`, the index `HashMemo.run` gives each of them (`HashMemo.lookup`).
 Reply: `ok <hex of encodeV H ver value>`, `missing-digest` when the model asked `H` for a stream
 that is not in the table (its stream for a key differs from the implementation's), or `bad-op`. -/
 open JoblibModel JoblibModel.HashStream JoblibModel.IOUtil
@@ -88,8 +91,20 @@ def lookupH (t : List (List Nat × List Nat)) (s : List Nat) : List Nat :=
   | some p => p.2
   | none => [MISSING]
 
+def handleMemo (r : List String) : String :=
+  match r.mapM String.toNat? with
+  | some objs =>
+    if objs.eraseDups.length ≠ objs.length then "bad-op"
+    else
+      let m := HashMemo.run objs
+      match objs.mapM (HashMemo.lookup m) with
+      | some idxs => "ok" ++ String.join (idxs.map fun i => " " ++ toString i)
+      | none => "bad-op"
+  | none => "bad-op"
+
 def handle (line : String) : String :=
   match tokens line with
+  | "memo" :: r => handleMemo r
   | "enc" :: ver :: n :: r =>
     match (if ver = "old" then some Version.old else if ver = "fixed" then some Version.fixed else none),
           n.toNat? with
